@@ -17,6 +17,9 @@ type KAScenario struct {
 	ID     string       `json:"id"`
 	Script []string     `json:"s"`
 	Batch  []KAScenario `json:"batch,omitempty"`
+	// Cadence > 0: every ping is answered at once; the run ends at the Cadence-th ping; IntervalMs is the ping interval
+	Cadence    int `json:"cadence,omitempty"`
+	IntervalMs int `json:"intervalMs,omitempty"`
 }
 
 // KAResult is what was observed.
@@ -25,6 +28,9 @@ type KAResult struct {
 	Pings int         `json:"pings"`
 	Res   string      `json:"res"`
 	Batch []*KAResult `json:"batch,omitempty"`
+	// cadence runs: time from the start of KeepAlive to the first and to the last ping
+	FirstUs int64 `json:"first_us,omitempty"`
+	LastUs  int64 `json:"last_us,omitempty"`
 }
 
 func init() { register("keepalive", runKARaw) }
@@ -112,7 +118,58 @@ func runKARaw(raw json.RawMessage) interface{} {
 	return runKA(&sc)
 }
 
+// cadClient answers every ping at once and stops the loop at the n-th ping.
+type cadClient struct {
+	mqtt.Client
+	mu     sync.Mutex
+	n      int
+	pings  int
+	t0     time.Time
+	first  time.Duration
+	last   time.Duration
+	cancel context.CancelFunc
+}
+
+func (c *cadClient) Ping(ctx context.Context) error {
+	c.mu.Lock()
+	defer c.mu.Unlock()
+	if ctx.Err() != nil {
+		return ctx.Err()
+	}
+	c.pings++
+	d := time.Since(c.t0)
+	if c.pings == 1 {
+		c.first = d
+	}
+	c.last = d
+	if c.pings >= c.n {
+		c.cancel()
+		return ctx.Err()
+	}
+	return nil
+}
+
+func runKACadence(sc *KAScenario) *KAResult {
+	ctx, cancel := context.WithTimeout(context.Background(), 20*time.Second)
+	defer cancel()
+	cctx, ccancel := context.WithCancel(ctx)
+	defer ccancel()
+	cli := &cadClient{n: sc.Cadence, cancel: ccancel, t0: time.Now()}
+	interval := time.Duration(sc.IntervalMs) * time.Millisecond
+	err := mqtt.KeepAlive(cctx, cli, interval, 10*interval)
+	res := "canceled"
+	if !errors.Is(err, context.Canceled) {
+		res = "other:" + netsim.ErrClass(err)
+	}
+	cli.mu.Lock()
+	defer cli.mu.Unlock()
+	return &KAResult{ID: sc.ID, Pings: cli.pings, Res: res, FirstUs: cli.first.Microseconds(), LastUs: cli.last.Microseconds()}
+}
+
 func runKA(sc *KAScenario) *KAResult {
+	if sc.Cadence > 0 {
+		return runKACadence(sc)
+	}
 	ctx, cancel := context.WithCancel(context.Background())
 	defer cancel()
 	cli := &kaClient{script: sc.Script, cancel: cancel}
